@@ -53,6 +53,17 @@ CHECKS = {
              'run also judged by measurements taken by the real child processes (alive at return, max overlap, stdin).',
         note='real goroutine interleavings are sampled with seeded delays, not enumerated; stand-in tools replace '
              'shellcheck/pyflakes; Cap controlled through CPU affinity; scripts stay below the pipe buffer size'),
+    'C02': dict(
+        category='model_checking', design_ref='5 (C02), 3.4 Emission, A.7',
+        technique='TLA+ spec Emission.tla (every iteration order of every map-sourced emission site and of the jobs; '
+                  'stable sort) checked by TLC; witness inputs for every catalogued site linted repeatedly by the real '
+                  'code (map order re-randomised, GOMAXPROCS 1..16, multi-file); all outcomes recorded and validated by '
+                  'TLC (EmissionTrace.tla: equal to the first outcome of the input, sorted, ties in rule order)',
+        text='The model characterises exactly which emission sites can make the output order-dependent; for each such '
+             'site of the code a witness input is run many times and any two differing real outputs are a violation '
+             '(sound by construction, detection probabilistic: >= 64 runs per witness in quick, 400 in thorough).',
+        note='Go map order and goroutine schedules cannot be forced; sites outside the catalogue (DESIGN A.7) are not '
+             'exercised; one known finding (multi-file attribution of a shared broken local action) is listed in known_findings.json'),
 }
 
 REASON_NOT_YET = 'check not built yet in this revision of /verif (planned, see DESIGN.md section 5); not claimed'
